@@ -204,6 +204,9 @@ def rand_number(rnd):
         return rnd.randint(-10 ** 6, 10 ** 6)
     if x < 0.6:
         return rnd.choice([0.5, -2.25, 1e21, 1e-7, 1.5e300, 5e-324, 1e15, 1e16, 2.0 ** 53, 123456789012345.0, 0.1, -0.0, 10.0, 100.0, 1e22, 1.0e-5])
+    if x < 0.66:
+        # integers a host (or numberParseInt) hands over exactly: beyond 2**53 they have no float spelling, and are still written and read back exactly
+        return rnd.choice([1, -1]) * rnd.choice([2 ** 53 + 1, 2 ** 63, 2 ** 64 - 1, 1234567890123456789, 10 ** 18 + 1, rnd.randint(2 ** 53, 2 ** 70)])
     bits = rnd.getrandbits(64)
     v = struct.unpack('>d', bits.to_bytes(8, 'big'))[0]
     return v if v == v and v not in (math.inf, -math.inf) else 1.25
